@@ -604,4 +604,22 @@ theorem resume_after_fini_stays_engaged :
     (execAll adX false true rw1 pay1 false (world0 3 1 [] []) [.resume, .fini, .resume, .fini]).r.alt = true := by
   decide +kernel
 
+/-! ### refused calls are inert -/
+
+/-- **resume_while_running_inert**: Resume on a screen that is running ("already engaged": an unconditional SIGCONT handler, a
+double Resume) re-registers the resize callback and does nothing else — no byte is written, no Tty call but NotifyResize is made,
+and the whole state (requests, cells, the session's shutdown signalling that a later Suspend relies on) is what it was.  (A tree on
+which the refused call replaces the session's stop channel hangs the next Suspend: seeded change C06-7, reported by engine `pipe`.) -/
+theorem resume_while_running_inert (cf : ModeCfg) (st : MState) (h : st.running = true) :
+    Modes.step cf st .resume = (st, [.call .notifyFn]) := by
+  simp [Modes.step, Modes.stepV, Modes.engage, h]
+
+/-- **suspend_while_suspended_inert**: Suspend on a screen that is not running (suspended already, or finished) does nothing at all -/
+theorem suspend_while_suspended_inert (cf : ModeCfg) (st : MState) (h : st.running = false) :
+    Modes.step cf st .suspend = (st, []) := by
+  simp [Modes.step, Modes.stepV, Modes.disengageV, h]
+
+example (cf : ModeCfg) : ∃ st : MState, st.running = true ∧ Modes.step cf st .resume = (st, [.call .notifyFn]) :=
+  ⟨{ running := true }, rfl, resume_while_running_inert cf _ rfl⟩
+
 end Tcell.Props.C04
